@@ -534,6 +534,22 @@ pub fn c10(tier: &str) -> ! {
     let t = thorough(tier);
     fams.insert(1, spec("C10-snap/T300", &["T300"], k2(), a_c03_small(), if t { 7 } else { 5 }, lay).flush());
     fams.insert(2, spec("C10-snap/T1", &["T1"], k2(), a_c03_small(), if t { 7 } else { 5 }, lay).flush());
+    // outputs cut because they span too much of the level below their own ("grandparent"
+    // overlap above 10 x max_file_size): the middle key carries 3000 incompressible bytes, so one
+    // deeper table outweighs the limit of 3000 bytes and a compaction of the two outer keys is
+    // cut between them while its output builder is open
+    fams.insert(
+        3,
+        spec(
+            "C10-grandparent-cut/T300",
+            &["T300"],
+            k3s(),
+            vec![Op::Put(1, 3), Op::Batch(vec![(0, true), (2, true)]), Op::Put(0, 0), Op::Put(2, 0), Op::Del(1), Op::Compact(None, None), Op::Compact(Some(0), Some(0))],
+            if t { 6 } else { 4 },
+            lay,
+        )
+        .flush(),
+    );
     run_families(&mut rep, fams, budget(tier), |c| c.starts_with("C10."));
     finish_common(&mut rep);
     rep.cov("oracle", json!("after every operation (background idle) and every reopen: levels >= 1 sorted and pairwise disjoint in internal-key order, smallest <= largest, metadata bounds equal first/last stored entry, entries sorted, no duplicate file number, NumFilesAtLevel and SSTables text agree with the structured layout"));
